@@ -57,7 +57,7 @@ static void encode(int ce, const uint8_t *d, size_t n, hx_buf *out) {
 }
 
 /* ---- oracle ---- */
-static struct { const uint8_t *want; size_t wn; int side; size_t bomb_limit; int check_bound; int expect_exact; int invalid_lzma; char desc[260]; const uint8_t *alt; size_t altn; } DT;
+static struct { const uint8_t *want; size_t wn; int side; size_t bomb_limit; int check_bound; int expect_exact; int invalid_lzma; int multi_member; char desc[260]; const uint8_t *alt; size_t altn; } DT;
 static void inspect(htp_connp_t *c, hx_obs *o, void *ctx) {
     (void) ctx;
     htp_tx_t *tx = htp_list_get(c->conn->transactions, 0); if (!tx) { hx_verdict_add("C07", "no_tx", "%s: no transaction", DT.desc); return; }
@@ -74,6 +74,7 @@ static void inspect(htp_connp_t *c, hx_obs *o, void *ctx) {
             int suffix = got->n < DT.wn && got->n > 0 && !memcmp(got->p, DT.want + (DT.wn - got->n), got->n);
             const char *kind = restart && o->site_a[HX_SITE_DECOMP_RESTART] > 0 ? "payload_lost_after_restart" : restart && suffix ? "prefix_lost_in_passthrough" : "payload_mismatch";
             if (DT.invalid_lzma) kind = "invalid_lzma_lost";     /* input class: text that is not LZMA announced as lzma */
+            if (DT.multi_member) kind = got->n == 5 ? "multi_member_rest_lost" : "multi_member_mismatch";     /* input class: gzip body of two members; exactly the first member (5 bytes) delivered */
             hx_verdict_add("C07", kind, "%s: %zu bytes were delivered to the body callbacks, the payload has %zu (first difference at offset %zu; restart consumed-earlier=%ld)", DT.desc, got->n, DT.wn, i, o->site_a[HX_SITE_DECOMP_RESTART]);
         }
     }
@@ -196,6 +197,24 @@ static void bomb_tail_case(size_t zeros, size_t tail, int layers, size_t limit, 
     hx_report_verdicts(&S, &O, PROPS);
     hx_emit_sample(DT.desc);
 }
+/* a gzip body made of two members (RFC 1952 2.2: "a gzip file consists of a series of members"): both payloads belong to the body */
+static void multi_case(int side, int framing, size_t chunk) {
+    if (case_id++ % hx_shard_n != hx_shard_i || hx_deadline_hit()) return;
+    static hx_buf z, q, r, want; hb_reset(&z); hb_reset(&q); hb_reset(&r); hb_reset(&want);
+    gx_deflate(&z, PAY[2].p, PAY[2].n, 0); gx_deflate(&z, PAY[3].p, PAY[3].n, 0);
+    hb_put(&want, PAY[2].p, PAY[2].n); hb_put(&want, PAY[3].p, PAY[3].n);
+    hx_buf *w = side ? &r : &q;
+    if (side) { hb_puts(&q, "GET /z HTTP/1.1\r\nHost: h\r\n\r\n"); hb_puts(&r, "HTTP/1.1 200 OK\r\nContent-Encoding: gzip\r\n"); }
+    else { hb_puts(&q, "POST /z HTTP/1.1\r\nHost: h\r\nContent-Encoding: gzip\r\n"); hb_puts(&r, "HTTP/1.1 200 OK\r\nContent-Length: 0\r\n\r\n"); }
+    if (framing == 0) { hb_printf(w, "Content-Length: %zu\r\n\r\n", z.n); hb_put(w, z.p, z.n); }
+    else { hb_puts(w, "Transfer-Encoding: chunked\r\n\r\n"); int sz[2] = { (int) (z.n / 2), (int) (z.n - z.n / 2) }; gx_chunked(w, z.p, z.n, sz, 2, 0, 0); }
+    hx_script_init(&S); S.cfg.req_decomp = 1; S.inspect = inspect;
+    DT.side = side; DT.check_bound = 0; DT.expect_exact = 1; DT.alt = NULL; DT.invalid_lzma = 0; DT.multi_member = 1; DT.want = want.p; DT.wn = want.n;
+    snprintf(DT.desc, sizeof DT.desc, "%s body of two gzip members (\"hello\" and 300 pseudo-random bytes), framing %s, %s", side ? "response" : "request", framing ? "chunked" : "Content-Length", chunk ? "7-byte chunks" : "whole");
+    S.label = DT.desc;
+    run_one(&q, &r, NULL, 0, chunk);
+    DT.multi_member = 0;
+}
 /* long bodies: more than 256 output buffers (2 MiB) of decompressed data, where the decompression time accounting samples the clock.  The clock is
  * FROZEN (no time passes), at several epochs: the accounting must see zero time spent whatever the absolute time is, and the payload must arrive intact. */
 static void long_case(int ce, int side, uint32_t epoch, size_t chunk) {
@@ -262,6 +281,7 @@ static int worker(int argc, char **argv) {
         for (int layers = 1; layers <= 2; layers++) for (int li = 0; li < 3; li++) for (size_t ch = 1; ch <= 5; ch += (ch < 3 ? 1 : 2))
             for (int zi = 0; zi < 2; zi++) bomb_tail_case(zi ? (12u << 20) : (1u << 20), thorough ? 7000 : 4000, layers, TLIM[li], ch);
         for (int at = 1; at <= 40; at++) clock_case(at);
+        for (int side = 1; side >= 0; side--) for (int fr = 0; fr < 2; fr++) for (int ch = 0; ch < 2; ch++) multi_case(side, fr, ch ? 7 : 0);
         /* epochs: the harness default (1e9), 1, and three present-day values whose microsecond count truncated to 32 bits is positive / negative / small */
         static const uint32_t EPOCH[] = { 0, 1, 1790000636u, 1790000000u, 1790000123u };
         static const int LCE[] = { CE_GZIP, CE_DEFLATE_ZLIB, CE_LZMA };
